@@ -380,6 +380,34 @@ theorem boundary_function_args {X : Type} (x : List X) (axis : Nat) (fixed : X) 
     (bdEvalArgs x axis fixed).reverse = bdGridArgs x.reverse axis fixed :=
   reverse_insertIdx x axis fixed h
 
+
+omit [Field K] in
+/-- **`_BoundaryFunction.grid_jacobian`**: dropping column `jacs.shape[-1] - axis - 1` of the
+full Jacobian row (columns x first: column `m` ↔ coefficient axis `n-1-m`) leaves the
+derivatives along the boundary function's own axes `i' ↦ (i' if i' < axis else i'+1)`, again
+x first — for every number of axes. -/
+theorem boundary_jacobian_columns (n axis : Nat) (v : Nat → K) (h : axis < n) :
+    bdDropColumn ((List.range n).reverse.map v) axis
+      = (List.range (n - 1)).reverse.map (fun i' => v (if i' < axis then i' else i' + 1)) := by
+  unfold bdDropColumn
+  simp only [List.length_map, List.length_reverse, List.length_range]
+  apply List.ext_getElem
+  · simp; omega
+  · intro q h1 h2
+    simp only [List.length_map, List.length_reverse, List.length_range] at h2
+    rw [List.getElem_append]
+    simp only [List.length_take, List.length_map, List.length_reverse, List.length_range]
+    by_cases hq : q < n - axis - 1
+    · rw [dif_pos (by omega)]
+      simp only [List.getElem_take, List.getElem_map, List.getElem_reverse, List.getElem_range, List.length_range]
+      rw [if_neg (by omega)]
+      congr 1; omega
+    · rw [dif_neg (by omega)]
+      simp only [List.getElem_drop, List.getElem_map, List.getElem_reverse, List.getElem_range, List.length_range]
+      rw [if_pos (by omega)]
+      congr 1; omega
+
+
 /-! ### the same laws on the model's list-level constructors (translate, scale) -/
 
 theorem bspTranslate_at (F : Func K) (off : List K) (i : Nat) (h : i < F.c.length) :
